@@ -199,6 +199,10 @@ def should_succeed(op, expect, before):
             t_ = expect("target")
             return t_ is not None and t_ in before and not isdir(t_) and (before[t_][1] & 0o170000) != 0o120000
         return op["type"] in ("file", "dir", "fifo", "symlink", "chr", "blk")
+    if k == "create_file":
+        if e not in before:
+            return True
+        return (before[e][1] & 0o170000) == 0o100000 and not op.get("flags", 0) & O["EXCL"]
     if k == "remove_file":
         return e in before and not isdir(e)
     if k == "remove_dir":
